@@ -5,33 +5,67 @@
 From Coq Require Import List ZArith Lia Bool Arith String.
 From RG.Base Require Import Outcome GoInt GoSlice.
 From RG.Regex Require Import Utf8 Regex Capture.
-From RG.Engine Require Import TruncateSpec RenderSpec RenderLoop CommentSpec CommentLoop CommentLoad.
-From RGW Require Import Gen_C03 Inst_Render Gen_C12 Inst_Comment Gen_C12Loop Def_CommentLoop Inst_CommentLoop Gen_C12Load Def_CommentLoad Inst_CommentLoad.
+From RG.Engine Require Import TruncateSpec RenderSpec RenderLoop CommentSpec CommentLoop CommentLoad CommentHandler.
+From RGW Require Import Gen_C03 Inst_Render Gen_C12 Inst_Comment Gen_C12Loop Gen_C12Handler Def_CommentHandler Inst_CommentHandler Def_CommentLoop Inst_CommentLoop Gen_C12Load Def_CommentLoad Inst_CommentLoad.
 Import ListNotations.
 Local Open Scope Z_scope.
 
+(* handleCommentMatch AS TRANSLATED FROM THE SOURCE on this run (go2coq c12handler: the assignments to the REUSED record
+   rr.reportData -- one cell per field of ReportData --, rr.filterParams.match, the filter call, both renderMessage calls, the
+   At() relocation, the Suggestion and GoRuleInfo literals, the Report callback seeing a snapshot of every field of the record),
+   instantiated on the model's rules / match data / nodes, IS the specified handler handle_w: for all rules whose At() variable
+   is bound by the match data, all match data, ALL incoming worlds (whatever an earlier report left in the record). *)
+Theorem C12_translated_handler_is_model :
+  forall re l src r md w whole,
+  md_node md = Some whole -> chosen_node (c_rule r) whole (md_caps md) <> None -> r_loc (c_rule r) <> Some [] ->
+  gen_handle_w re l src r md w = handle_w re l src r md w.
+Proof. exact gen_handle_is_handle_w. Qed.
+Print Assumptions C12_translated_handler_is_model.
+
+(* nothing of an earlier report shows: what the callback sees for an accepted match is the same report from any two worlds *)
+Theorem C12_report_independent_of_reused_record :
+  forall re l src r md whole w1 w2 w1' w2',
+  md_node md = Some whole -> chosen_node (c_rule r) whole (md_caps md) <> None -> r_loc (c_rule r) <> Some [] ->
+  gen_handle_w re l src r md w1 = Ok (true, w1') -> gen_handle_w re l src r md w2 = Ok (true, w2') ->
+  exists rep, map report_of (delivered w1') = map report_of (delivered w1) ++ [Some rep] /\
+              map report_of (delivered w2') = map report_of (delivered w2) ++ [Some rep].
+Proof. exact report_independent_of_reused_record. Qed.
+
+(* checkBoundVars at load time is what makes the At() variable bound at run time: the rule loaded for an alternative has
+   its location declared (given, of the regexp oracle, that group 0 is unnamed and that a regexp naming a group has groups) *)
+Theorem C12_loaded_rule_has_its_location_bound :
+  forall has_groups r names a, vars_bound r names = true -> nth_error names 0 = Some [] ->
+  (forall v, v <> [] -> In v names -> has_groups (a_pat a) = true) -> loc_declared (alt_rule has_groups r names a).
+Proof. exact vars_bound_loc_declared. Qed.
+
 (* runCommentRules AS TRANSLATED FROM THE SOURCE on this run (go2coq c12loop: both range loops with their break / continue,
    the declaration of the match data wherever it stands, the index arithmetic result[i*2+0/1], the positions
-   file.Pos(idx + file.Offset(comment.Pos())) with token.File read as base + offset, both paths), instantiated on the model's
-   rules / nodes / match data / handler, IS the model run_comment_rules: for all rule lists, all answers of the regexp oracle,
-   all comments at all offsets of a file with ANY base in the FileSet, all worlds (reports delivered so far). Every theorem
-   below about run_comment_rules / try_rule is therefore a theorem about the translated function. *)
+   file.Pos(idx + file.Offset(comment.Pos())) with token.File read as base + offset, both paths), CALLING the translated
+   handler, instantiated on the model's rules / nodes / match data, delivers to the Report callback exactly the report of the
+   model run_comment_rules: for all rule lists with bound At() variables, all answers of the regexp oracle, all comments at
+   all offsets of a file with ANY base in the FileSet, ALL incoming worlds (reports delivered so far AND the content of the
+   reused record). Every theorem below about run_comment_rules / try_rule is therefore a theorem about the translated code. *)
 Theorem C12_translated_loop_is_model :
   forall re l src off text base rules w,
-  gen_run_comment_rules nodeTextInRange re l src off text base rules w =
-  bind (run_comment_rules nodeTextInRange re l src off text rules) (fun r => Ok (deliver w r)).
+  Forall (fun r => loc_declared (fst r)) rules ->
+  bind (gen_run_comment_rules nodeTextInRange re l src off text base rules w) (fun w' => Ok (reports_of w')) =
+  bind (run_comment_rules nodeTextInRange re l src off text rules)
+       (fun o => Ok (reports_of w ++ match o with Some rep => [Some rep] | None => [] end)).
 Proof. exact (gen_run_is_run_comment_rules nodeTextInRange). Qed.
 Print Assumptions C12_translated_loop_is_model.
 
 (* at most one report per comment is delivered, and it is the model's *)
 Corollary C12_translated_loop_delivers_at_most_one :
-  forall re l src off text base rules log,
-  gen_run_comment_rules nodeTextInRange re l src off text base rules [] = Ok log ->
-  exists r, run_comment_rules nodeTextInRange re l src off text rules = Ok r /\ log = match r with Some rep => [rep] | None => [] end.
+  forall re l src off text base rules w w',
+  Forall (fun r => loc_declared (fst r)) rules ->
+  gen_run_comment_rules nodeTextInRange re l src off text base rules w = Ok w' ->
+  exists r, run_comment_rules nodeTextInRange re l src off text rules = Ok r /\
+            reports_of w' = reports_of w ++ match r with Some rep => [Some rep] | None => [] end.
 Proof.
-  intros re l src off text base rules log. rewrite C12_translated_loop_is_model.
-  destruct (run_comment_rules nodeTextInRange re l src off text rules) as [r|p]; cbn [bind]; [|discriminate].
-  intros [= <-]. exists r. split; [reflexivity|]. destruct r; reflexivity.
+  intros re l src off text base rules w w' Hd Hrun.
+  pose proof (C12_translated_loop_is_model re l src off text base rules w Hd) as H. rewrite Hrun in H. cbn [bind] in H.
+  destruct (run_comment_rules nodeTextInRange re l src off text rules) as [r|p]; cbn [bind] in H; [|discriminate].
+  exists r. split; [reflexivity|]. now injection H.
 Qed.
 
 (* the rule loop AS THE SOURCE DECLARES ITS MATCH DATA (gen_c12_match_data_fresh) judges every rule on that rule's own
@@ -199,8 +233,8 @@ Theorem C12_has_capture_correct : forall re, walk_found re false = true <-> cont
 Proof. exact has_capture_correct. Qed.
 Print Assumptions C12_has_capture_correct.
 
-(* the statement facts of the handlers, the comment walk of run(), the loader and regexpHasCaptureGroups, read off the source on this run *)
-Theorem C12_comment_path_facts : forallb snd gen_c12_facts = true /\ (8 <= List.length gen_c12_facts)%nat.
+(* the statement facts of handleMatch's use of the reused record, the comment walk of run() and regexpHasCaptureGroups, read off the source on this run *)
+Theorem C12_comment_path_facts : forallb snd gen_c12_facts = true /\ (3 <= List.length gen_c12_facts)%nat.
 Proof. exact (conj c12_facts_hold c12_facts_count). Qed.
 Print Assumptions C12_comment_path_facts.
 
